@@ -26,9 +26,9 @@ Theorem C13_quote_aligned : forall types after buf n, quote_lines types after = 
 Proof. exact quote_aligned. Qed.
 Print Assumptions C13_quote_aligned.
 
-Theorem C13_item_aligned : forall types after prepend buf_rev taken newlines buf n nm,
+Theorem C13_item_aligned : forall types leader after prepend buf_rev taken newlines buf n nm,
   (newlines <= length buf_rev)%nat -> (1 <= taken)%nat ->
-  item_loop types after prepend buf_rev taken newlines = (buf, n, nm) ->
+  item_loop types leader after prepend buf_rev taken newlines = (buf, n, nm) ->
   (length buf + taken <= n + length buf_rev)%nat /\ (n <= taken + length after)%nat.
 Proof. exact item_loop_aligned. Qed.
 Print Assumptions C13_item_aligned.
